@@ -51,6 +51,15 @@ theorem cross_kind_order (E : Env) (a b : Value) (h : Spec.typeRank a < Spec.typ
   rw [cmpNat_lt.2 h] at this
   cases a <;> cases b <;> first | (simp only [orderCompare, this, Option.getD]; done) | rfl | (exfalso; revert h; simp [rank, Generated.rankNull, Generated.rankBool, Generated.rankInt, Generated.rankFloat, Generated.rankString, Generated.rankList, Generated.rankMap, Generated.rankNodeId, Generated.rankExternalId, Generated.rankEdgeKey, Generated.rankDateTime, Generated.rankBlob, Generated.rankPath]; done)
 
+/-- the shared string comparator attempts the temporal parse for EVERY pair of strings (regenerated table
+    `Comparators`): no text-only shortcut, so the model's `strCmp` — which consults `temporalKey` for every pair — is
+    the comparator of ORDER BY, `<` and min/max -/
+theorem string_compare_always_parses : Generated.stringCompareAlwaysParses = true := by decide
+
+/-- the model's string comparison IS the Spec's string order: same-kind temporal strings chronologically (by the
+    keys of the temporal parser), every other pair as text -/
+theorem strCmp_is_spec_order (E : Env) (x y : Str) : strCmp E x y = Spec.strOrder E x y := rfl
+
 /-- the composed comparator of an ORDER BY with several ASC/DESC items is a total preorder on rows whose
     keys come from a set of values outside the triggers -/
 theorem keyCompare_totalPreorder_partial (E : Env) (vs : List Value) (h : ordOK E vs = true) (dirs : List Dir) :
